@@ -24,6 +24,7 @@ func TestMain(m *testing.M) { ev.Main(m, "C19") }
 
 type brokerProxy struct {
 	Message     func() (map[string][]push.Message, error)                                   `name:"<"`
+	MessageCtx  func(ctx context.Context) (map[string][]push.Message, error)                `name:"<"`
 	Subscribe   func(topic string) (bool, error)                                            `name:"+"`
 	Unsubscribe func(topic string) (bool, error)                                            `name:"-"`
 	Unicast     func(data interface{}, topic string, id string) (bool, error)               `name:">"`
@@ -649,7 +650,11 @@ func (p *parker) waitParked(d time.Duration) bool {
 func runForced(c ForcedCase) string {
 	hookMu.Lock()
 	defer hookMu.Unlock()
-	r := newRig(15*time.Millisecond, []string{"pub", "x", "y"})
+	brokerTimeout := 15 * time.Millisecond
+	if c.Scenario == "abandoned-poll-then-publish" {
+		brokerTimeout = 400 * time.Millisecond // the client gives up long before the broker would answer
+	}
+	r := newRig(brokerTimeout, []string{"pub", "x", "y"})
 	defer r.close()
 	defer push.VerifSetHook(nil)
 	x, pub := r.clients["x"], r.clients["pub"]
@@ -796,6 +801,30 @@ func runForced(c ForcedCase) string {
 		case <-time.After(W):
 			return "poll whose responder had been taken never returned"
 		}
+	case "abandoned-poll-then-publish":
+		// the client gives up a pending poll (its own time-out, far below the broker's); a message accepted
+		// afterwards must wait for the next poll, not be handed to the poll nobody listens to any more
+		if c.PreQueued > 0 {
+			res, err := x.Message()
+			if err != nil {
+				return "drain poll failed: " + err.Error()
+			}
+			note(res)
+		}
+		ctx, cancel := context.WithTimeout(context.Background(), 40*time.Millisecond)
+		res, err := x.MessageCtx(ctx)
+		cancel()
+		if err == nil {
+			note(res) // answered after all (nothing was queued: an empty reply)
+		}
+		time.Sleep(5 * time.Millisecond)
+		ok, err := publish("raced", "t")
+		if err != nil {
+			return "publish failed: " + err.Error()
+		}
+		if ok {
+			accepted["raced"] = "t"
+		}
 	case "register-vs-publish":
 		if c.PreQueued > 0 {
 			res, err := x.Message()
@@ -863,7 +892,7 @@ func runForced(c ForcedCase) string {
 }
 
 func TestForcedInterleavings(t *testing.T) {
-	scenarios := []string{"publish-vs-unsubscribe", "timeout-then-publish", "pop-then-timeout", "register-vs-publish"}
+	scenarios := []string{"publish-vs-unsubscribe", "timeout-then-publish", "pop-then-timeout", "register-vs-publish", "abandoned-poll-then-publish"}
 	idx := 0
 	for _, sc := range scenarios {
 		for pre := 0; pre <= 2; pre++ {
